@@ -5,6 +5,8 @@ Correspondence (C): the real `secsgem.secs.variables` classes against the Lean m
 Direct oracle (O), on the real classes only:
   * `encode()` equals the *Spec* encoder's bytes (`codec spec`, Lean `Spec.E5.encode`) and the harness's own E5 encoder;
   * `decode(encode(v))` gives an equal value (F4: equal after rounding to binary32) and returns exactly the position after the item;
+  * the same when the decoding object already holds another value (as `List.decode` / a reused function object do), several times in a row;
+  * every value `set()` accepts — whatever the model says about it — has an E5 encoding, is encoded to it and decodes back;
   * `encode_item_header` is format byte + minimal big-endian length bytes for every length 0..0xFFFFFF and refuses the rest.
 """
 from __future__ import annotations
@@ -80,40 +82,129 @@ def oracle_roundtrip(res, s, v, prefix: bytes, spec_hex=None):
     return enc
 
 
-STALE_CLASS = "c01-binary-empty-decode-keeps-stale"
+TEXT_POOL = list(range(0x100)) + [0xA5, 0x203E] + list(range(0xFF61, 0xFFA0)) + [0xFF60, 0xFFA0, 0x100, 0x17F, 0x20AC, 0x3042, 0xFFFD, 0x1F600, 0x10FFFF, 0xD800]
 
 
-def finding_listed(klass: str) -> bool:
+def empty_of(v):
+    t, xs = v
+    return ("L", [empty_of(x) for x in xs]) if t == "L" else (t, [])
+
+
+def refill(rng, v):
+    """same shape, other elements (never more of them: count limits of the structure stay satisfied)"""
+    t, xs = v
+    if t == "L":
+        return ("L", [refill(rng, x) for x in xs])
+    n = rng.choice([0, len(xs), len(xs)]) if xs else 0
+    return (t, K.gen_elems(rng, t, n))
+
+
+def refill_for(rng, s, v):
+    """like refill, but a leaf may also hold MORE elements than v has where the structure's count limit allows (so that an empty
+    item is decoded into an object that holds something)"""
+    t, xs = v
+    k = s[0]
+    if t == "L":
+        if k == "arr":
+            return ("L", [refill_for(rng, s[1], x) for x in xs])
+        if k == "rec":
+            return ("L", [refill_for(rng, f, x) for f, x in zip(s[1], xs)])
+        return ("L", [refill_for(rng, ("any",), x) for x in xs])
+    c = s[2] if k in ("leaf", "dyn") else -1
+    top = max(len(xs), 3) if c == -1 else len(xs)
+    n = rng.choice([0, len(xs), top, rng.range(0, top)])
+    return (t, K.gen_elems(rng, t, n))
+
+
+def oracle_reuse(res, s, start, seq):
+    """decode into an object that ALREADY HOLDS a value (List.decode decodes into its existing field objects; a function object
+    may be decoded into twice): after each decode the object holds exactly the decoded value and the position is the item's end.
+    start: value the object holds at first (None = fresh); seq: values decoded one after the other (harness's own E5 bytes)."""
+    case = {"kind": "reuse", "struct": js(s), "start": js(start) if start is not None else None, "seq": js(list(seq))}
     try:
-        return any(f"class={klass} " in line and line.startswith("open:") for line in open(os.path.join(hlib.ROOT, "known_findings.txt")))
-    except OSError:
-        return False
-
-
-def probe_stale_binary(res):
-    """proposals/C01-binary-empty-decode-keeps-stale.md: decoding into a USED object (outside the fresh-object scope of the theorems).
-    Reported as a finding only once the orchestrator has listed the class; until then it is a note in the evidence."""
-    case = {"kind": "stale-binary"}
-    try:
-        b = V.Binary(b"xyz")
-        b.decode(V.Binary(b"").encode())
-        stale = b.get() != b""
-    except Exception:  # noqa: BLE001
-        stale = True
-    res.count(("stale-binary",))
-    if not stale:
+        obj = K.build_var(s, start) if start is not None else K.fresh_var(s)
+    except Exception as exc:  # noqa: BLE001
+        res.notes.append(f"reuse oracle: could not build {K.show_struct(s)}: {type(exc).__name__}")
         return
-    if finding_listed(STALE_CLASS):
-        res.violate(STALE_CLASS, 'Binary(b"xyz").decode(bytes 21 00) keeps b"xyz" (zero-length B item decoded into a used object)', case, "b''", "b'xyz'")
-    else:
-        res.notes.append('observation (proposals/C01-binary-empty-decode-keeps-stale.md, not counted): Binary(b"xyz").decode(21 00) keeps b"xyz"; '
-                         "decoding into a used object is outside the fresh-object scope of this check")
+    for k, v in enumerate(seq):
+        enc = K.own_encode(v)
+        try:
+            pos = obj.decode(enc, 0)
+        except Exception as exc:  # noqa: BLE001
+            res.violate("reuse-decode-raises", f"decode #{k + 1} into an object already holding a value raised {type(exc).__name__}: {exc}", case)
+            return
+        want = K.norm_val(v)
+        back = K.val_of_var(obj)
+        if back != want:
+            res.violate("reuse-stale-value", f"after decode #{k + 1} into an object that already held a value the object does not hold the decoded value",
+                        case, K.show_val(want)[:200], K.show_any(back)[:200])
+            return
+        if pos != len(enc):
+            res.violate("roundtrip-position", f"decode #{k + 1} into a used object did not consume exactly the item", case, len(enc), pos)
+            return
+
+
+def oracle_accepted(res, t, count, p):
+    """the property on ANY value the implementation accepts: T(count).set(p) succeeded -> the held value has an E5 encoding,
+    encode() is that encoding, and it decodes back to the held value at the right position"""
+    case = {"kind": "accepted", "type": t, "count": count, "py": js(p)}
+    try:
+        obj = K.VARCLS[t](count=count)
+        obj.set(K.py_real(p))
+    except Exception:  # noqa: BLE001
+        return          # not accepted: outside the quantifier
+    held = K.val_of_var(obj)
+    if K.has_nan(held):
+        return
+    try:
+        own = K.own_encode(held)
+    except Exception:  # noqa: BLE001
+        own = None
+    try:
+        enc = obj.encode()
+    except Exception as exc:  # noqa: BLE001
+        res.violate("encode-raises", f"encode() of an accepted value raised {type(exc).__name__}: {exc}", case, K.show_val(held)[:200])
+        return
+    if own is None:
+        res.violate("accepts-value-without-E5-encoding", "set() accepted a value the item format cannot represent, and encode() sent bytes for it",
+                    case, K.show_val(held)[:200], enc.hex()[:200])
+    elif enc != own:
+        res.violate("encode-not-E5", "encode() differs from the E5 byte string", case, own.hex()[:200], enc.hex()[:200])
+    dcount = count
+    if not K.count_ok(t, count, len(held[1])):
+        # quirk kept as is: the scalar branch of set() does not look at `count` (only count=0 can be exceeded that way);
+        # the count limit is instance configuration, not part of the value: decode without it
+        dcount = -1
+        res.bump("quirks", "scalar set() ignores count")
+    try:
+        fresh = K.VARCLS[t](count=dcount)
+        pos = fresh.decode(enc)
+        back = K.val_of_var(fresh)
+    except Exception as exc:  # noqa: BLE001
+        res.violate("decode-raises", f"decode(encode(v)) raised {type(exc).__name__}: {exc}", case, K.show_val(held)[:200])
+        return
+    if back != K.norm_val(held):
+        res.violate("roundtrip-value", "decode(encode(v)) is not v", case, K.show_val(K.norm_val(held))[:200], K.show_any(back)[:200])
+    elif pos != len(enc):
+        res.violate("roundtrip-position", "decode() did not consume exactly the encoded bytes", case, len(enc), pos)
+
+
+def unjs_py(x):
+    if isinstance(x, list) and x and isinstance(x[0], str):
+        if x[0] in ("list", "tuple"):
+            return (x[0], [unjs_py(y) for y in x[1]])
+        if x[0] == "obj":
+            return ("obj", unjs(x[1]))
+        return tuple(x)
+    return x
 
 
 def replay_case(res, case):
     k = case.get("kind")
-    if k == "stale-binary":
-        probe_stale_binary(res)
+    if k == "reuse":
+        oracle_reuse(res, unjs(case["struct"]), unjs(case["start"]) if case["start"] is not None else None, [unjs(x) for x in case["seq"]])
+    elif k == "accepted":
+        oracle_accepted(res, case["type"], case["count"], unjs_py(case["py"]))
     elif k == "roundtrip":
         oracle_roundtrip(res, unjs(case["struct"]), unjs(case["val"]), bytes.fromhex(case["prefix"]))
     elif k == "header":
@@ -227,7 +318,7 @@ def gen_pyval(rng, t):
         r = rng.below(10)
         n = rng.choice([0, 1, 2, 3, 5, 8])
         if r < 3:
-            pool = list(range(0, 130)) + [0xA5, 0xFF, 0x100, 0x203E, 0xFF61, 0xFF9F, 0xFFA0, 0x20AC, 0x5C, 0x7E, 0xE0, 0xA1, 0xDF]
+            pool = TEXT_POOL if rng.chance(2, 3) else [0x5C, 0x7E, 0xA5, 0x203E, 0xFF61, 0xFF9F, 0xA1, 0xDF, 0xE0, 0x7F, 0x80, 0xA0, 0xFF, 65, 97]
             return ("str", [rng.choice(pool) for _ in range(n)])
         if r < 5:
             return (rng.choice(["bytes", "ba"]), list(rng.bytes(n)) if rng.chance(1, 2) else [rng.below(128) for _ in range(n)])
@@ -294,7 +385,6 @@ def main():
     for case in replay_cases:
         replay_case(res, case)
         res.count(("replay", json.dumps(case, sort_keys=True)))
-    probe_stale_binary(res)
 
     # ------------------------------------------------------------------ A. item header: Gen.ItemHeaderVar vs Base.encode_item_header
     lens = [-2, -1, 0, 1, 2, 127, 128, 254, 255, 256, 257, 511, 512, 65534, 65535, 65536, 65537, 16777214, 16777215, 16777216, 16777217, 2 ** 31, 2 ** 32 + 5]
@@ -384,6 +474,12 @@ def main():
                     oracle_roundtrip(res, s, small, b"")
             except Exception:  # noqa: BLE001
                 pass
+        if not K.has_nan(v):
+            oracle_reuse(res, s, refill_for(rng, s, v), [v])                    # pre-filled with another conforming value
+            oracle_reuse(res, s, v, [empty_of(v)])                       # holds v, then an item of the same shape with empty leaves
+            if i % 3 == 0:
+                oracle_reuse(res, s, None, [v, empty_of(v), v])          # decode several times in a row into one object
+            res.evaluations += 2
         t = v[0]
         res.count(("pair", K.show_struct(s), K.show_val(v)), sample={"op": "encode/decode", "struct": K.show_struct(s), "val": K.show_val(v)[:120]} if i % 97 == 0 else None)
         res.bump("top_type", t)
@@ -483,6 +579,20 @@ def main():
         res.count(("set", t, count, K.show_py(p)), sample={"op": "set", "type": t, "count": count, "value": K.show_py(p)[:80]} if i % 211 == 0 else None)
         res.bump("set_input_form", p[0])
         res.bump("set_outcome", "ok" if ans.startswith("ok") else ans)
+        if ans.startswith("ok"):
+            oracle_accepted(res, t, count, p)        # whatever the implementation accepts must round-trip (whatever the model says)
+    # text codecs: every code point of the pool alone and between two letters, for String and JIS8
+    for t in ("A", "J"):
+        for c in TEXT_POOL:
+            for p in (("str", [c]), ("str", [97, c, 98])):
+                ans = K.impl(lambda t=t, p=p: K.show_obj(K.VARCLS[t](K.py_real(p))))
+                cases.append({"type": t, "count": -1, "value": K.show_py(p)})
+                lines.append(f"codec set {t} -1 {K.show_py(p)}")
+                answers.append(ans)
+                res.count(("set", t, -1, K.show_py(p)))
+                res.bump("text_codepoint_outcome", f"{t} {'ok' if ans.startswith('ok') else ans}")
+                if ans.startswith("ok"):
+                    oracle_accepted(res, t, -1, p)
     hlib.compare_batch(res, drv, "T(count).set(python value) vs Model.Var.setLeaf", cases, lines, answers)
 
     cases, lines, answers = [], [], []
